@@ -65,6 +65,10 @@ pub struct UsefulConstants {
 
 impl UsefulConstants {
     pub fn new(curve: &Curve) -> UsefulConstants {
+        #[cfg(feature = "verif")]
+        if let Some(prime) = verif::prime_override() {
+            return UsefulConstants { curve: curve.clone(), prime };
+        }
         UsefulConstants { curve: curve.clone(), prime: curve.prime() }
     }
 
@@ -81,5 +85,25 @@ impl UsefulConstants {
     /// Returns the size in bits of the used prime.
     pub fn prime_size(&self) -> usize {
         self.prime.bits()
+    }
+}
+
+/// Verification hook H3: lets the conformance harness run the analysis over a
+/// small prime field (per thread). Inert unless a prime is set at run time.
+#[cfg(feature = "verif")]
+pub mod verif {
+    use num_bigint::BigInt;
+    use std::cell::RefCell;
+
+    thread_local! {
+        static PRIME_OVERRIDE: RefCell<Option<BigInt>> = RefCell::new(None);
+    }
+
+    pub fn set_prime_override(prime: Option<BigInt>) {
+        PRIME_OVERRIDE.with(|cell| *cell.borrow_mut() = prime);
+    }
+
+    pub fn prime_override() -> Option<BigInt> {
+        PRIME_OVERRIDE.with(|cell| cell.borrow().clone())
     }
 }
